@@ -56,15 +56,20 @@ def gen_box(rng, n):
 
 
 def build_sig_domain(n, box):
-    """SigDomain {lo <= x <= hi} through coniclifts constraints, with gts/eqs for membership tests"""
+    """SigDomain {lo <= x <= hi} (or {a_k . x <= b_k} for box = {'lin': [[a_k, b_k], ...]}) through coniclifts constraints, with
+    gts/eqs for membership tests"""
     import sageopt.coniclifts as cl
     from sageopt.symbolic.signomials import SigDomain
     if box is None:
         return None
-    lo = np.array([float(F(x)) for x in box['lo']])
-    hi = np.array([float(F(x)) for x in box['hi']])
     x = cl.Variable(shape=(n,), name='relax_box_x_%d' % build_sig_domain.k)
     build_sig_domain.k += 1
+    if 'lin' in box:
+        rows = [(np.array([float(F(v)) for v in a]), float(F(b))) for a, b in box['lin']]
+        return SigDomain(n, coniclifts_cons=[(a @ x) <= b for a, b in rows],
+                         gts=[(lambda z, a=a, b=b: b - a @ z) for a, b in rows], eqs=[])
+    lo = np.array([float(F(x)) for x in box['lo']])
+    hi = np.array([float(F(x)) for x in box['hi']])
     X = SigDomain(n, coniclifts_cons=[x >= lo, x <= hi],
                   gts=[(lambda z, i=i: z[i] - lo[i]) for i in range(n)] + [(lambda z, i=i: hi[i] - z[i]) for i in range(n)], eqs=[])
     return X
